@@ -105,7 +105,7 @@ theorem toMatD_phasegate (n : ℤ) (θ : ℝ) (hθ : θ = (n : ℝ) * (Real.pi /
   rw [h2, ← Cyc.toC_zpow]
   ext i j; fin_cases i <;> fin_cases j <;> simp
 
-theorem enc_two (x : St 2) : enc x = 2 * (x 0).val + (x 1).val := by
+theorem enc_two_fn (x : St 2) : enc x = 2 * (x 0).val + (x 1).val := by
   simp [enc, bitsL, undigits, prodL, List.ofFn_succ]
   ring
 
@@ -125,7 +125,7 @@ theorem toMatD_ctrl (e : ℕ) (a b c d : Cyc) (M : Matrix (Fin 2) (Fin 2) ℂ)
   have h2 : (2 : ℂ) ^ e ≠ 0 := pow_ne_zero _ (by norm_num)
   rw [ctrl_def]
   ext x y
-  simp only [toMatD, toMat, enc_two, ctrl1, Matrix.smul_apply, CMat.get]
+  simp only [toMatD, toMat, enc_two_fn, ctrl1, Matrix.smul_apply, CMat.get]
   generalize x 0 = i0
   generalize x 1 = i1
   generalize y 0 = j0
